@@ -1,6 +1,176 @@
 import OtelVerif.Common.Line
 import OtelVerif.Model.C14
-/-! driver for C14 (stub) -/
-def main : IO UInt32 := do
-  IO.eprintln "drv_c14: not built yet"
-  return 2
+/-! driver for C14: models `c14-fmt` (fmt dispatch + marshalling paths) and `c14-enc` (config-map encoder) -/
+open OtelVerif OtelVerif.Line OtelVerif.C14 OtelVerif.Gen
+
+namespace OtelVerif.Drivers.C14
+
+/-! ## operand trees in prefix notation
+`O<i>` opaque, `S<hex>` string, `N<n>` number, `Z` nil, `P v` pointer, `I v` interface, `L<n> v…` slice,
+`l` nil slice, `A<n> v…` array, `M<n> (k v)…` map, `m` nil map, `T<n> (f:<hexname>:<e|u>:<o|->:<q|-> v)…` struct -/
+
+def parseField (t : String) : Option FieldInfo :=
+  match t.splitOn ":" with
+  | ["f", hn, ex, om, sq] =>
+    (unhex hn).map fun n => { name := n, exported := ex == "e", omitEmpty := om == "o", squash := sq == "q" }
+  | _ => none
+
+mutual
+partial def parseGV : List String → Option (GV × List String)
+  | [] => none
+  | t :: rest =>
+    let arg := (t.drop 1).toString
+    match t.front with
+    | 'O' => arg.toNat?.map fun i => (.opq i, rest)
+    | 'S' => (unhex arg).map fun s => (.str s, rest)
+    | 'N' => arg.toNat?.map fun n => (.num n, rest)
+    | 'Z' => some (.nilv, rest)
+    | 'l' => some (.nilSlice, rest)
+    | 'm' => some (.nilMap, rest)
+    | 'P' => (parseGV rest).map fun (v, r) => (.ptr v, r)
+    | 'I' => (parseGV rest).map fun (v, r) => (.iface v, r)
+    | 'L' => arg.toNat?.bind fun n => (parseN n rest).map fun (vs, r) => (.slice vs, r)
+    | 'A' => arg.toNat?.bind fun n => (parseN n rest).map fun (vs, r) => (.array vs, r)
+    | 'M' => arg.toNat?.bind fun n => (parseKV n rest).map fun (kvs, r) => (.map kvs, r)
+    | 'T' => arg.toNat?.bind fun n => (parseF n rest).map fun (fs, r) => (.struct fs, r)
+    | _ => none
+partial def parseN : Nat → List String → Option (List GV × List String)
+  | 0, r => some ([], r)
+  | n + 1, r => (parseGV r).bind fun (v, r1) => (parseN n r1).map fun (vs, r2) => (v :: vs, r2)
+partial def parseKV : Nat → List String → Option (List (GV × GV) × List String)
+  | 0, r => some ([], r)
+  | n + 1, r =>
+    (parseGV r).bind fun (k, r1) => (parseGV r1).bind fun (v, r2) => (parseKV n r2).map fun (kvs, r3) => ((k, v) :: kvs, r3)
+partial def parseF : Nat → List String → Option (List (FieldInfo × GV) × List String)
+  | 0, r => some ([], r)
+  | n + 1, r =>
+    match r with
+    | [] => none
+    | ft :: r1 =>
+      (parseField ft).bind fun fi => (parseGV r1).bind fun (v, r2) => (parseF n r2).map fun (fs, r3) => ((fi, v) :: fs, r3)
+end
+
+def parseTree (toks : List String) : Option GV :=
+  match parseGV toks with
+  | some (v, []) => some v
+  | _ => none
+
+/-- twin type descriptor: one letter per method (F Format, G GoString, S String, E Error, T MarshalText,
+B MarshalBinary), lower case = pointer receiver; every twin method returns the constant "M" -/
+def twinTD (spec : String) : Option TD :=
+  if spec == "real" then some Opaque.methods
+  else if spec == "-" then some []
+  else spec.toList.mapM fun ch =>
+    let nm : Option String := match ch.toUpper with
+      | 'F' => some "Format" | 'G' => some "GoString" | 'S' => some "String" | 'E' => some "Error"
+      | 'T' => some "MarshalText" | 'B' => some "MarshalBinary" | _ => none
+    nm.map fun n => { name := n, valueRecv := ch.isUpper, kind := if n == "Format" then .formatDelegate else .ret, result := .lit "M" }
+
+def ρ1 : Nat → String := fun i => "Qa" ++ toString i
+def ρ2 : Nat → String := fun i => "Wb" ++ toString i
+
+structure FS where
+  lastOp : List String := []
+  fails : List String := []   -- reversed
+  unexp : Nat := 0
+
+def splitColon (toks : List String) : List String × List String :=
+  (toks.takeWhile (· != ":"), (toks.dropWhile (· != ":")).drop 1)
+
+def classify (c : FmtCtx) (v : GV) : String :=
+  if c.verb == 'w' then "C14/fmt/verb-w-badverb-raw"
+  else if c.verb == 'p' then "C14/fmt/verb-p-badverb-raw"
+  else if !v.plainTop then "C14/fmt/nested-pointer-badverb-raw"
+  else if stringVerbs.contains c.verb then "C14/fmt/valid-verb-raw"
+  else "C14/fmt/invalid-verb-raw"
+
+def fmtHandler : Handler FS where
+  init := {}
+  onOp := fun s toks =>
+    let s := { s with lastOp := toks }
+    match toks with
+    | "fmt" :: rest =>
+      let (kvs, shape) := splitColon rest
+      match (kv kvs "td").bind twinTD, kvNat kvs "verb", kvNat kvs "sharp", kvNat kvs "prec0", kvNat kvs "werr", parseTree shape with
+      | some td, some verb, some sharp, some prec0, some werr, some v =>
+        let c : FmtCtx := { verb := Char.ofNat verb, sharpV := sharp == 1, wrapErrs := werr == 1 }
+        let l1 := pa td c ρ1 v
+        let l2 := pa td c ρ2 v
+        let calls := if kv kvs "td" == some "real" then "?" else
+          String.join ((l1.filter (fun l => l.how != .rawKind && l.how != .badVerbRaw)).map (fun l => l.how.tag))
+        (s, [s!"obs calls={if calls.isEmpty then "-" else calls} dep={if depends (prec0 == 1) l1 l2 then 1 else 0}"])
+      | _, _, _, _, _, _ => (s, ["obs bad-op"])
+    | "path" :: rest =>
+      match kv rest "name", kv rest "pos" with
+      | some name, some pos =>
+        let p := if pos == "mapKey" then Pos.mapKey else Pos.value
+        let t1 := pathText Opaque.methods name p "Qa"
+        let t2 := pathText Opaque.methods name p "Wb"
+        (s, [s!"obs dep={if t1 != t2 then 1 else 0} marker={if t1 == Opaque.marker then 1 else 0}"])
+      | _, _ => (s, ["obs bad-op"])
+    | "misc" :: _ => (s, ["obs dep=0"])      -- EXTRA / BADINDEX / BADWIDTH / Sprint wrappers: `printArg(arg,'v')` outside `erroring`, or no operand at all
+    | _ => (s, ["obs bad-op"])
+  onObs := fun s toks =>
+    match toks with
+    | "obs" :: rest =>
+      if kvNat rest "dep" == some 1 then
+        match s.lastOp with
+        | "fmt" :: r =>
+          let (kvs, shape) := splitColon r
+          if kv kvs "td" != some "real" then s else
+          match kvNat kvs "verb", parseTree shape with
+          | some verb, some v =>
+            if v.hasUnexported then { s with unexp := s.unexp + 1 }
+            else { s with fails := s!"sig={classify { verb := Char.ofNat verb } v} op={" ".intercalate s.lastOp}" :: s.fails }
+          | _, _ => { s with fails := "sig=C14/fmt/unparsable" :: s.fails }
+        | "path" :: r =>
+          if kv r "name" == some "conv" then s else
+          { s with fails := s!"sig=C14/{(kv r "name").getD "?"}/{(kv r "pos").getD "?"}-raw op={" ".intercalate s.lastOp}" :: s.fails }
+        | _ => { s with fails := s!"sig=C14/fmt/wrapper-raw op={" ".intercalate s.lastOp}" :: s.fails }
+      else s
+    | _ => s
+  onEnd := fun s =>
+    -- one line per distinct signature (first occurrence)
+    let fs := s.fails.reverse
+    let sigs := (fs.map (fun f => (f.splitOn " ").headD "")).eraseDups
+    let outs := sigs.filterMap (fun sg => fs.find? (fun f => (f.splitOn " ").headD "" == sg))
+    if outs.isEmpty then ["prop nointerference=ok"] else outs.map (fun f => s!"prop nointerference=FAIL {f}")
+
+structure ES where
+  secrets : List String := []
+  strs : List String := []
+  bad : Bool := false
+
+def encHandler : Handler ES where
+  init := {}
+  onOp := fun s toks =>
+    match toks with
+    | "enc" :: rest =>
+      let (kvs, shape) := splitColon rest
+      let empt := ((kv kvs "empt").getD "").splitOn "," |>.map (· == "1")
+      let secrets := (((kv kvs "sec").getD "").splitOn ",").filterMap unhex |>.filter (· != "")
+      match parseTree shape with
+      | some v =>
+        let ρ : Nat → String := fun i => if empt.getD i false then "" else "x"
+        let o := match enc Opaque.methods ρ v with
+          | .ok a => "obs ok " ++ a.show
+          | .error _ => "obs err"
+        ({ s with secrets := secrets }, [o])
+      | none => (s, ["obs bad-op"])
+    | "builtin" :: _ => (s, ["obs checked"])   -- built-in configurations: direct oracles only (`viol` lines of the harness)
+    | _ => (s, ["obs bad-op"])
+  onObs := fun s toks =>
+    match toks with
+    | ["tr", "s", h] => match unhex h with
+      | some str => { s with strs := str :: s.strs }
+      | none => { s with bad := true }
+    | _ => s
+  onEnd := fun s =>
+    if s.bad then ["prop nosecret=FAIL sig=C14/confmap/unparsable"]
+    else if s.strs.all (fun x => !s.secrets.contains x) then ["prop nosecret=ok"]
+    else ["prop nosecret=FAIL sig=C14/confmap/raw-secret-in-effective-config"]
+
+end OtelVerif.Drivers.C14
+
+def main : IO UInt32 :=
+  runMulti [("c14-fmt", run OtelVerif.Drivers.C14.fmtHandler), ("c14-enc", run OtelVerif.Drivers.C14.encHandler)]
